@@ -40,12 +40,12 @@ for prop, rules in RULES.items():
     for x in d['failing']:
         for fid, pred, root, what in rules:
             if pred(x):
-                groups[fid][0][(x[0], x[1], x[3])].add(x[2]); groups[fid][1].setdefault('w', {'input': x[5], 'output': x[6], 'detail': x[4]}); break
+                groups[fid][0][(x[0], x[1], x[3], x[4])].add(x[2]); groups[fid][1].setdefault('w', {'input': x[5], 'output': x[6], 'detail': x[4]}); break
         else: un.append(x)
     for fid, pred, root, what in rules:
         s, ex = groups[fid]
         if not s: print('NOTE', prop, fid, 'has no failing cell any more'); continue
-        kf['findings'].append({'property': prop, 'id': fid, 'status': 'open', 'kind': 'matrix', 'sites': [[c, sl, sorted(k), ctx] for (c, sl, ctx), k in sorted(s.items())],
+        kf['findings'].append({'property': prop, 'id': fid, 'status': 'open', 'kind': 'matrix', 'sites': [[c, sl, sorted(k), ctx, det] for (c, sl, ctx, det), k in sorted(s.items())],      # a site = construct, slot, trivia kinds, context AND the kind of failure
                                'witness': ex['w'], 'root_cause': root, 'what_fails': what,
                                'theorem': 'outside the proven fragment F0 (slot-matrix cell); a failing cell that matches no listed site is reported'})
     print(prop, 'cells', d['cells'], 'failing', len(d['failing']), 'unclassified', len(un))
